@@ -11,7 +11,7 @@ import json, shutil
 
 from hypothesis import strategies as st
 
-from . import runner, core, interp, gen
+from . import runner, core, interp, gen, c01
 from .core import Fail, h64
 from .lang import *  # noqa
 
@@ -20,7 +20,7 @@ FEATURES = {"wide-ints", "structs", "arrays", "enums", "optionals", "error-union
 
 @st.composite
 def cases(draw):
-    g = gen.G(draw, {"features": FEATURES, "max_fns": 3, "max_types": 3, "avoid": {"switch-array-arm", "divmod128"}})
+    g = gen.G(draw, {"features": FEATURES, "max_fns": 3, "max_types": 3, "avoid": c01.current_avoid()})
     g.make_types()
     g.make_consts()
     # pure helper functions only
@@ -31,10 +31,32 @@ def cases(draw):
             g.fns.remove(f)
     env = [(n, t, False) for n, t, _ in g.p.consts]
     T = g.value_ty(2)
+    if g.int(0, 2):
+        # two thirds of the cases: an aggregate or sum type where one can be had
+        for _ in range(4):
+            if not is_scalar(strip_distinct(T)):
+                break
+            T = g.value_ty(2)
     e = g.rhs(T, env, 3)
     placement = draw(st.sampled_from(["local", "global", "nested", "both"]))
     marker = draw(st.booleans())
-    return {"program": g.p, "T": T, "e": e, "placement": placement, "marker": marker, "util": g}
+    global_exact = draw(st.booleans())
+    return {"program": g.p, "T": T, "e": e, "placement": placement, "marker": marker, "util": g, "global_exact": global_exact}
+
+
+CONVERSION_KEYS = ("C04:global-conversion:", "crash:crates/codegen/src/compiler/functions.rs:called `_` on a `_` value")
+_conv = []
+
+
+def conversion_open():
+    """listed open finding: a global `g : T : comptime { B }` whose block has a type that is only implicitly convertible to T"""
+    if not _conv:
+        _conv.append(any(f.get("status") == "open" and f["key"].startswith(CONVERSION_KEYS) for f in core.load_findings("C04")))
+    return _conv[0]
+
+
+def global_is_exact(case):
+    return case["global_exact"] or conversion_open()
 
 
 def strategy(profile):
@@ -43,7 +65,7 @@ def strategy(profile):
 
 def build(case):
     p, T, e, g = case["program"], case["T"], case["e"], case["util"]
-    body = [Let("rt", T, False, e)]
+    body = [PutS("@rt"), Let("rt", T, False, e)]
     body += g.print_value(Var("rt", T), T)
     extra_globals = []
     pl = case["placement"]
@@ -51,10 +73,17 @@ def build(case):
         ce = Comptime(e, T) if pl != "nested" else Comptime(Comptime(e, T), T)
         if case["marker"]:
             ce = Raw("comptime { puts(\"CT_MARKER_7f3a\"); " + esrc(e) + " }", T)
+            ce.sem = e
+        body.append(PutS("@ct"))
         body.append(Let("ct", T, False, ce))
         body += g.print_value(Var("ct", T), T)
     if pl in ("global", "both"):
-        extra_globals.append(f"gct : {T.src()} : comptime {{ {esrc(e)} }};")
+        if global_is_exact(case):
+            # the block itself has exactly the declared type
+            extra_globals.append(f"gct : {T.src()} : comptime {{ tmp : {T.src()} = {esrc(e)}; tmp }};")
+        else:
+            extra_globals.append(f"gct : {T.src()} : comptime {{ {esrc(e)} }};")
+        body.append(PutS("@gct"))
         body += g.print_value(Var("gct", T), T)
     main = FnDecl("main", [], VOID, body, None)
     p2 = Program()
@@ -87,14 +116,32 @@ def check(case, stats, scratch, profile):
         stats.nontrivial.add(h64(src))
     stats.cls("type." + type(t0).__name__)
     stats.cls("placement." + case["placement"])
-    replay = {"files": {"main.capy": src}, "expect": {"stdout": out}, "marker": bool(case["marker"] and case["placement"] != "global")}
+    shape = type(t0).__name__
+    replay = {"files": {"main.capy": src}, "expect": {"stdout": out}, "marker": bool(case["marker"] and case["placement"] != "global"), "shape": shape,
+              "global_exact": global_is_exact(case)}
+    if case["placement"] in ("global", "both"):
+        stats.cls("global-form." + ("exact-type" if global_is_exact(case) else "implicit-conversion"))
     o = runner.run_case(scratch, {"main.capy": src})
-    verdict(o, out, replay, src, f"{type(t0).__name__}:{case['placement']}")
+    verdict(o, out, replay, src, shape)
     if nontrivial:
         stats.sample({"program": src[-1400:], "stdout": out[:200]})
 
 
+STR_SHAPES = ("fixed:str", "fixed:struct-with-str")
+
+
 def verdict(o, out, replay, src, shape):
+    try:
+        verdict_inner(o, out, replay, src, shape)
+    except Fail as f:
+        # a `str` produced by a comptime block points into memory of the compile-time JIT; how the dangling
+        # pointer shows (garbage text, SIGSEGV, or by luck nothing) varies from run to run: one key for all of it
+        if shape in STR_SHAPES and not f.key.startswith("crash:") and "rejected" not in f.key:
+            raise Fail("C04:str-result-dangling", f.desc, f.replay)
+        raise
+
+
+def verdict_inner(o, out, replay, src, shape):
     if o.kind in ("timeout", "exe-timeout"):
         return
     if o.kind == "crash":
@@ -107,17 +154,38 @@ def verdict(o, out, replay, src, shape):
     if replay.get("marker"):
         n_compile = o.compiler_out.count("CT_MARKER_7f3a")
         n_run = got.count("CT_MARKER_7f3a")
-        if n_compile != 1 or n_run != 0:
-            raise Fail("C04:side-effect", f"the comptime block's puts marker appears {n_compile} time(s) in the compiler output and {n_run} time(s) in the executable's output (expected 1 and 0)\n--- program ---\n{src}", replay)
+        if n_compile < 1 or n_run != 0:
+            raise Fail("C04:side-effect", f"the comptime block's puts marker appears {n_compile} time(s) in the compiler output and {n_run} time(s) in the executable's output (expected >= 1 and 0)\n--- program ---\n{src}", replay)
     if got != out:
-        gl, el = got.split("\n"), out.split("\n")
-        i = next((k for k in range(min(len(gl), len(el))) if gl[k] != el[k]), min(len(gl), len(el)))
-        raise Fail(f"C04:value-differs:{shape}", f"output differs at line {i}: expected {el[i:i+3]}, got {gl[i:i+3]} (first the runtime value, then the comptime one(s))\n--- program ---\n{src}", replay)
+        gs, es = segments(got), segments(out)
+        for name, exp_seg in es.items():
+            got_seg = gs.get(name)
+            if got_seg != exp_seg:
+                if name == "@gct" and not replay.get("global_exact", True):
+                    key = f"C04:global-conversion:{shape}"
+                else:
+                    key = f"C04:value-differs:{shape}:{name[1:]}"
+                raise Fail(key, f"the value printed for `{name[1:]}` differs: expected {exp_seg!r}, got {got_seg!r} (rt = evaluated at run time, ct = local comptime block, gct = global comptime block)\n--- program ---\n{src}", replay)
+        raise Fail(f"C04:value-differs:{shape}:other", f"output differs: expected {out!r}, got {got!r}\n--- program ---\n{src}", replay)
 
+
+def segments(text):
+    segs, cur = {}, "@head"
+    for line in text.split("\n"):
+        if line.startswith("@"):
+            cur = line
+            segs[cur] = []
+        else:
+            segs.setdefault(cur, []).append(line)
+    return {k: "\n".join(v) for k, v in segs.items()}
+
+
+import struct as _struct
+F64_BITS = _struct.unpack("<q", _struct.pack("<d", 1.5 * 2.25 + 0.1))[0]
 
 FIXED = [
     # (name, source, expected stdout)
-    ("f64-arith", 'printf :: (fmt: str, n: i64) -> i32 extern;\nbits64 :: (x: f64) -> u64 { (^u64.(rawptr.(^x)))^ }\nmain :: () {\n    rt : f64 = 1.5 * 2.25 + 0.1;\n    ct : f64 = comptime { 1.5 * 2.25 + 0.1 };\n    printf("%ld\\n", i64.(bits64(rt) == bits64(ct)));\n    printf("%ld\\n", i64.(bits64(ct)));\n}\n', "1\n4615176287521238221\n"),
+    ("f64-arith", 'printf :: (fmt: str, n: i64) -> i32 extern;\nbits64 :: (x: f64) -> u64 { (^u64.(rawptr.(^x)))^ }\nmain :: () {\n    rt : f64 = 1.5 * 2.25 + 0.1;\n    ct : f64 = comptime { 1.5 * 2.25 + 0.1 };\n    printf("%ld\\n", i64.(bits64(rt) == bits64(ct)));\n    printf("%ld\\n", i64.(bits64(ct)));\n}\n', f"1\n{F64_BITS}\n"),
     ("f32-div", 'printf :: (fmt: str, n: i64) -> i32 extern;\nbits32 :: (x: f32) -> u32 { (^u32.(rawptr.(^x)))^ }\nmain :: () {\n    a : f32 = 1.0;\n    rt : f32 = a / 3.0;\n    ct : f32 = comptime { b : f32 = 1.0; b / 3.0 };\n    printf("%ld\\n", i64.(bits32(rt)));\n    printf("%ld\\n", i64.(bits32(ct)));\n}\n', "1051372203\n1051372203\n"),
     ("type-value", 'printf :: (fmt: str, n: i64) -> i32 extern;\nflag :: true;\nmain :: () {\n    RT :: if flag { i16 } else { u64 };\n    CT :: comptime { if flag { i16 } else { u64 } };\n    x : CT = 300;\n    printf("%ld\\n", i64.(CT == i16));\n    printf("%ld\\n", i64.(CT == u64));\n    printf("%ld\\n", i64.(x));\n}\n', "1\n0\n300\n"),
     ("str", 'puts :: (s: str) -> i32 extern;\nS :: comptime { "hello comptime" };\nmain :: () {\n    rt : str = "hello comptime";\n    puts(rt);\n    puts(S);\n    ct : str = comptime { "local one" };\n    puts(ct);\n}\n', "hello comptime\nhello comptime\nlocal one\n"),
@@ -131,6 +199,8 @@ FIXED = [
 def replay_payload(payload, scratch):
     o = runner.run_case(scratch, payload["files"])
     try:
+        if "global_exact" not in payload:
+            payload = dict(payload, global_exact=True)
         verdict(o, payload["expect"]["stdout"], payload, payload["files"]["main.capy"], payload.get("shape", "replay"))
     except Fail as f:
         return f.key
